@@ -30,8 +30,13 @@ int main(void)
 	REQUIRES(in_size >= 1);	/* size 0 is covered by the constant-size runs (the loop invariants mention byte g_k) */
 #endif
 	REQUIRES(in_size <= OFV_MAX_SIZE);
+#ifdef OFV_TA
+	in_ta = OFV_TA;		/* bounded variant: alignments are harness constants too */
+	in_fa = OFV_FA;
+#else
 	IN(UINT32, in_ta);
 	IN(UINT32, in_fa);
+#endif
 	IN(UINT32, g_s);
 	REQUIRES(in_ta < 8 && in_fa < 8 && (in_ta == 0 ? g_s == 0 : g_s < in_ta));
 	IN(UINT32, g_k);
